@@ -386,6 +386,18 @@ def run(spec, res, a):
         found = False
         if "diag" in spec:
             found = spec["diag"](spec, res, fails, mlog)
+        if not found and "explore" in spec and spec.get("judge_targets"):
+            # search for a concrete failing input: the judge (checker + model) may still build although a theorem
+            # or a generated-data obligation does not; run the harness against it
+            ok2, mlog2, cmd2, dt2 = coq_make(spec["judge_targets"], timeout=spec.get("make_timeout", 1500))
+            res.checker_cmds.append(cmd2 + "  (search after a broken obligation, %.0fs)" % dt2)
+            if ok2:
+                res.extra["broken_proof_obligations"] = [{"file": f, "line": l, "error": e[:600]} for f, l, e in fails]
+                try:
+                    spec["explore"](spec, res, a)
+                except Broken as e:
+                    log("search after a broken obligation could not run: %s" % e)
+                found = any(fi for _, fi in res.violations)
         if not found:
             violation(res, {"property": prop, "broken_proof_obligations": [{"file": f, "line": l, "error": e} for f, l, e in fails] or mlog[-2000:],
                             "note": "a theorem or finite obligation of this property no longer checks against the current tree"}, False)
